@@ -410,9 +410,14 @@ func swappedOut(ld *ssa.UnOp, place ssa.Value) bool {
 			return false // critical section ended before the swap
 		}
 		if st, ok := i.(*ssa.Store); ok && samePlace(st.Addr, place) {
-			switch Peel(st.Val).(type) {
+			switch pv := Peel(st.Val).(type) {
 			case *ssa.MakeMap, *ssa.MakeSlice, *ssa.MakeChan, *ssa.Alloc:
 				return true
+			case *ssa.Call:
+				// a fresh object made by a new constructor helper that several places call
+				if rs := helperResults(pv, 0); len(rs) == 1 && freshPerCall(pv, rs[0]) {
+					return true
+				}
 			}
 			return false
 		}
